@@ -576,7 +576,8 @@ func run(r *eng.Runner) {
 
 	// errors inside included / extended / imported files
 	r.Group("error-in-subtemplate", "c16.err", "a broken or failing sub-template reached by include (static, lazy), extends, import, ssi: the error must name the sub-template and point into its source")
-	broken := []string{"{% if a %}x{% elif %}y{% endif %}", "ab\n{% if a %}x{% else 1 %}y{% endif %}", "{% for i in l %}x{% empty 1 %}{% endfor %}", "\n{% ifequal a 1 %}{% else x %}{% endifequal %}", "{% for i in l %}{% endfor 1 %}", "{% block a %}{% endblock b %}", "{% with %}x{% endwith %}",
+	broken := []string{"ab\n{% block a %}1{% endblock %}\n{% block a %}2{% endblock %}", "{% block a %}{% block a %}{% endblock %}{% endblock %}", "\n\n{% macro mac() export %}{% endmacro %}{% macro mac() export %}{% endmacro %}",
+		"{% if a %}x{% elif %}y{% endif %}", "ab\n{% if a %}x{% else 1 %}y{% endif %}", "{% for i in l %}x{% empty 1 %}{% endfor %}", "\n{% ifequal a 1 %}{% else x %}{% endifequal %}", "{% for i in l %}{% endfor 1 %}", "{% block a %}{% endblock b %}", "{% with %}x{% endwith %}",
 		"ok{{ }", "x\n{% if %}", "{% nosuchtag %}", "é{{ 1|nosuchfilter }}", "a\n\n{{ fail() }}", "{{ a/0 }}", "{% for %}", "{{ \"unterminated }}"}
 	for _, bsrc := range broken {
 		for _, ref := range []string{`{% include "sub" %}`, `{% include b_sub %}`, `{% extends "sub" %}`, `{% import "sub" mac %}`, `{% ssi "sub" parsed %}`, "pre\n{% include \"sub\" %}"} {
